@@ -164,6 +164,9 @@ def point_sets(name):
     elif base == "Dipole":
         out.append(("position", np.array([(0.0, 0.0, 0.0)]), True))
         out.append(("next-to-position", np.array([(t, u, w) for t in tiny[1:] for u in tiny[:3] for w in tiny[:2]]), "overflow"))
+        # distances at which the field (~ 1e-7 |m| / r^3) is large but representable: it must be finite
+        reps = [1e-20, 1e-40, 1e-60, 1e-64, 1e-66, 1e-70, 1e-80, 1e-90, 1e-98]
+        out.append(("representable-near", np.array([(t * a, t * b, t * c) for t in reps for (a, b, c) in ((1, 0, 0), (0, 0, 1), (0.3, -0.5, 0.8), (-1, 1, 1))]), "local-only"))
         out.append(("far", np.array([(f, 0.3 * f, -f) for f in far] + [(0, 0, f) for f in far] + [(1e100, 0, 0), (1e154, 1e154, 0)]), False))
     else:
         raise AssertionError(name)
@@ -175,6 +178,8 @@ def allowed_mask(name, label, allow, pts):
     n = len(pts)
     if allow is True:
         return np.ones(n, bool)
+    if allow == "local-only":   # offsets that vanish when a pose is added: judged in the local frame only
+        return np.zeros(n, bool)
     if allow == "overflow":
         # next to a 1/r^3 singularity offsets below 1e-100 overflow legitimately
         return np.linalg.norm(pts, axis=1) <= 1e-100
